@@ -271,6 +271,27 @@ func (m *Machine) GetCSR(n uint16) uint64 {
 	return 0
 }
 
+// Clone copies the machine; mem is the memory the copy runs on.
+func (m *Machine) Clone(mem Memory) *Machine {
+	c := *m
+	c.Mem = mem
+	c.csr = map[uint16]uint64{}
+	for k, v := range m.csr {
+		c.csr[k] = v
+	}
+	c.Log = Log{}
+	return &c
+}
+
+// Clone copies a map memory.
+func (m *MapMem) Clone() *MapMem {
+	c := &MapMem{Bytes: make(map[uint64]byte, len(m.Bytes)), Init: m.Init}
+	for k, v := range m.Bytes {
+		c.Bytes[k] = v
+	}
+	return c
+}
+
 // CSRWritten lists CSRs written so far.
 func (m *Machine) CSRWritten() []uint16 {
 	var out []uint16
